@@ -2,8 +2,12 @@ package c14
 
 import (
 	"context"
+	"fmt"
+	"strconv"
 	"testing/synctest"
 	"time"
+
+	coreconnmgr "github.com/libp2p/go-libp2p/core/connmgr"
 )
 
 // connectedDuringTrim is a deterministic, hook-free reproduction of the interleaving "Connected(p)
@@ -107,6 +111,102 @@ func flapDuringTrim(value int, early bool) (reached, closedFresh bool, log []str
 		if e.Conn == ct2.id {
 			closedFresh = true
 		}
+	}
+	return
+}
+
+// failedTagClose: Close of a decaying tag FAILS because the decayer's close queue is full (the decayer
+// loop is parked inside a user bump function while `fillers` other tags are closed). Whatever a failed
+// Close means for later Bumps, the tag's values must not be frozen into the peers' totals: they either go
+// on decaying (three rounds of -10 take 30 to zero) or are removed. Afterwards a trim must close the peer
+// whose total is then 0, not the one tagged 10. Returns reached = Close really returned an error.
+func failedTagClose(fillers int) (reached bool, totalA, totalB int, closed []int, log []string) {
+	cfg := caseCfg{Low: 1, High: 9, GraceMs: 10000, SilenceMs: 10000, ResMs: 3001, DecIntMs: [2]int64{3001, 6002}, DecSub: [2]int{1, 1}, BumpMax: 12}
+	g, err := newRig(cfg, false, nil, nil)
+	if err != nil {
+		return false, 0, 0, nil, []string{err.Error()}
+	}
+	entered, release := make(chan struct{}, 1), make(chan struct{})
+	defer func() {
+		select {
+		case <-release:
+		default:
+			close(release)
+		}
+		g.cm.Close()
+		synctest.Wait()
+	}()
+	synctest.Wait()
+	res := time.Duration(cfg.ResMs) * time.Millisecond
+	minus10 := func(v coreconnmgr.DecayingValue) (int, bool) { return v.Value - 10, v.Value-10 <= 0 }
+	sum := func(v coreconnmgr.DecayingValue, d int) int { return v.Value + d }
+	score, err := g.cm.RegisterDecayingTag("score", res, minus10, sum)
+	if err != nil {
+		return false, 0, 0, nil, []string{err.Error()}
+	}
+	park, err := g.cm.RegisterDecayingTag("park", res, minus10, func(v coreconnmgr.DecayingValue, d int) int {
+		entered <- struct{}{}
+		<-release
+		return 0
+	})
+	if err != nil {
+		return false, 0, 0, nil, []string{err.Error()}
+	}
+	var fill []coreconnmgr.DecayingTag
+	for i := 0; i < fillers; i++ {
+		t, err := g.cm.RegisterDecayingTag("filler"+strconv.Itoa(i), res, minus10, sum)
+		if err != nil {
+			return false, 0, 0, nil, []string{err.Error()}
+		}
+		fill = append(fill, t)
+	}
+	nf := g.rec.notifee
+	const pA, pB = 5, 6
+	ca, _ := g.connFor(op{P: pA, S: 0}, nil)
+	cb, _ := g.connFor(op{P: pB, S: 0}, nil)
+	nf.Connected(nil, ca)
+	nf.Connected(nil, cb)
+	score.Bump(peerIDs[pA], 30)
+	g.cm.TagPeer(peerIDs[pB], "a", 10)
+	synctest.Wait()
+	log = append(log, "t=0 Connected(p5) Connected(p6) score.Bump(p5,30) TagPeer(p6,a,10)")
+	park.Bump(peerIDs[pB], 1)
+	synctest.Wait()
+	select {
+	case <-entered:
+	default:
+		return false, 0, 0, nil, append(log, "the decayer never entered the parking bump function")
+	}
+	nilCloses := 0
+	for _, t := range fill {
+		if t.Close() == nil {
+			nilCloses++
+		}
+	}
+	cerr := score.Close()
+	log = append(log, "decayer parked in a bump function; "+strconv.Itoa(nilCloses)+" filler tags closed; score.Close() = "+fmt.Sprint(cerr))
+	reached = cerr != nil
+	close(release)
+	synctest.Wait()
+	for i := 0; i < 4; i++ {
+		g.clk.Add(res)
+		synctest.Wait()
+	}
+	if ti := g.cm.GetTagInfo(peerIDs[pA]); ti != nil {
+		totalA = ti.Value
+	}
+	if ti := g.cm.GetTagInfo(peerIDs[pB]); ti != nil {
+		totalB = ti.Value
+	}
+	log = append(log, "after 4 decay intervals: total(p5)="+strconv.Itoa(totalA)+" total(p6)="+strconv.Itoa(totalB))
+	g.clk.Add(20 * time.Second)
+	synctest.Wait()
+	g.rec.takeEvents()
+	g.cm.TrimOpenConns(context.Background())
+	synctest.Wait()
+	for _, e := range g.rec.takeEvents() {
+		log = append(log, "closed "+evString([]closeEvent{e}))
+		closed = append(closed, e.Peer)
 	}
 	return
 }
